@@ -204,6 +204,13 @@ func genRich(t *core.Tape, tier, prop string) *Scenario {
 	p.ReqHeader = genMeta(t, "X-Q", p.bin)
 	p.RespHeader = genMeta(t, "X-H", p.bin)
 	p.RespTrailer = genMeta(t, "X-T", p.bin)
+	if prop == "C02" && c.Proto != PConnect && !c.JSON && t.Bool(1, 10, "client.own.type.codec") {
+		// a client whose "proto" codec decodes the service's own messages only
+		// and reports anything else with an error wrapping io.EOF: it cannot
+		// read the Status proto, but a failed call must still be a failed call
+		sc.Clients[0].OwnTypeCodec = true
+		sc.Notes["client_codec_cannot_decode_status"]++
+	}
 	if prop == "C11" && t.Bool(1, 8, "strict.handler.codec") {
 		// the handler's codecs marshal the service's own messages and nothing
 		// else: a gRPC Status cannot be built, the error's code and text are
@@ -532,6 +539,16 @@ func checkC02(w *World, st core.Status, r *RunResult) []Violation {
 		}
 		if o.Final == nil {
 			add("error-delivered-as-success", "handler returned an error, the client saw a clean, successful end")
+			continue
+		}
+		if w.Sc.Clients[p.Client].OwnTypeCodec && w.Sc.Clients[p.Client].Proto != PConnect {
+			// the client cannot decode the Status proto, so code and text are not
+			// what is decided here - only that the failure is a failure
+			r.Probes["client_cannot_decode_status"]++
+			var ce *connect.Error
+			if !errors.As(o.Final, &ce) || ce.Code() == 0 {
+				add("not-a-connect-error", fmt.Sprintf("%T: %v", o.Final, o.Final))
+			}
 			continue
 		}
 		var ce *connect.Error
